@@ -33,7 +33,7 @@ NoProto == [c |-> 0]
 HasProto == p.c # 0
 Alive == HasProto /\ ~p.dead /\ ~(Life /\ cexp)
 Authed == HasProto /\ p.v = 3 /\ p.key # 0 /\ ~p.kexp
-NewProto(c) == [c |-> c, v |-> pver, dead |-> FALSE, pid |-> 0, key |-> 0, kexp |-> FALSE, q |-> <<>>]
+NewProto(c) == [c |-> c, v |-> pver, dead |-> FALSE, pid |-> 0, key |-> 0, kexp |-> FALSE, q |-> <<>>, got |-> 0]   \* got: responses read before the transmission of the running send
 
 Init ==
   /\ creds = "none" /\ pver = 2 /\ p = NoProto /\ cexp = FALSE
@@ -82,7 +82,8 @@ OkPrefix(q) == IF q = <<>> \/ ReadOne(Head(q)) # "ok" THEN 0 ELSE 1 + OkPrefix(T
    pre = events already emitted in this step; o = the top-level operation; pp = protocol record. *)
 
 FinishF(pre, o, r, n, pp, newCreds, newFly) ==
-  /\ pc' = "Idle" /\ op' = "none" /\ left' = 0 /\ p' = pp /\ creds' = newCreds /\ use' = use
+  /\ pc' = "Idle" /\ op' = "none" /\ left' = 0 /\ creds' = newCreds /\ use' = use
+  /\ p' = IF pp.c # 0 THEN [pp EXCEPT !.got = 0] ELSE pp
   /\ evs' = pre \o <<[e |-> "ret", op |-> o, r |-> r, n |-> n, stored |-> newCreds]>>
   /\ fly' = newFly /\ UNCHANGED <<dkey, nkeys>>
 Finish(pre, o, r, n, pp, newCreds) == FinishF(pre, o, r, n, pp, newCreds, fly)
@@ -119,11 +120,11 @@ SendData(pre, o, pp, retriesLeft) ==
 DrainThenSend(pre, o, pp) ==
   IF Drain(pp.q) # "ok"
   THEN Finish(pre, o, "proto", 0, [pp EXCEPT !.q = SubSeq(pp.q, OkPrefix(pp.q) + 2, Len(pp.q))], creds)   \* DrainErrorNoDisconnect
-  ELSE SendData(pre, o, [pp EXCEPT !.q = <<>>], Retries)
+  ELSE SendData(pre, o, [pp EXCEPT !.q = <<>>, !.got = Len(pp.q)], Retries)
 
 StartAuth(pre, o, pp, u) ==
   IF u = "none" THEN Finish(pre, o, "auth", 0, pp, creds)    \* "Token and key must be supplied."
-  ELSE SendHS(pre, o, pp, u, Retries)
+  ELSE SendHS(pre, o, pp, u, IF o = "auth" THEN Retries ELSE HSRetries)     \* send() authenticates with the default budget
 
 (* ---------------- user calls ---------------- *)
 CallSend ==
@@ -172,7 +173,7 @@ WakeRead(pre, pp, nf) ==
   ELSE IF Drain(Tail(pp.q)) # "ok"
        THEN FinishF(pre, op, "proto", 0,
                     [pp EXCEPT !.q = SubSeq(Tail(pp.q), OkPrefix(Tail(pp.q)) + 2, Len(Tail(pp.q)))], creds, nf)   \* drain-after error, no disconnect
-       ELSE FinishF(pre, op, "frames", Len(pp.q), [pp EXCEPT !.q = <<>>], creds, nf)
+       ELSE FinishF(pre, op, "frames", pp.got + Len(pp.q), [pp EXCEPT !.q = <<>>], creds, nf)
 
 WakeAuth(pre, pp, nf) ==
   LET x == Head(pp.q) IN
